@@ -928,7 +928,33 @@ func runPermJobs(jobs []permJob, label string, nmax int) {
 		for i := range results[ji].counts {
 			results[ji].counts[i] = map[uint32]uint32{}
 		}
-		if w.rg.tp.maxRd > 1 {
+		// the byte-class abstraction (one representative per class b mod A) is validated for THIS
+		// call on its first two tape bytes: a call that distinguishes bytes of one class consumes the
+		// source differently from what the enumeration assumes, and is not decided here
+		classOK := true
+		if j.A < 256 && w.rg.tp.want > 0 {
+			probe := func(pos int) {
+				for b := j.A; b < 256 && classOK; b++ {
+					t1, t2 := make([]byte, pos+1), make([]byte, pos+1)
+					t1[pos], t2[pos] = byte(b), byte(b%j.A)
+					w.rg.load(t1)
+					var o1, o2 uint32
+					var b1, b2 string
+					h1 := guarded(func() { o1, b1 = w.call() })
+					r1 := w.rg.tp.reads
+					w.rg.load(t2)
+					h2 := guarded(func() { o2, b2 = w.call() })
+					if h1 != h2 || o1 != o2 || b1 != b2 || r1 != w.rg.tp.reads {
+						classOK = false
+					}
+				}
+			}
+			probe(0)
+			if w.rg.tp.want > 1 {
+				probe(1)
+			}
+		}
+		if w.rg.tp.maxRd > 1 || !classOK {
 			// this implementation pulls several bytes per draw: the tape tree over ONE byte class
 			// per draw is not its random-source space and would be astronomically larger than
 			// the space of draws. The job is not decided here (reported, exhaustive:false); the
